@@ -13,7 +13,44 @@ ASSUMPTIONS = [
     "event order is used per connection only (no cross-process ordering is needed for the discipline that is checked)",
 ]
 
-BUSY = re.compile(r"database is locked|database table is locked|SQLITE_BUSY|failed to insert new Runid|lock error", re.I)
+BUSY = re.compile(r"database is locked|database table is locked|SQLITE_BUSY|failed to insert new Runid|lock error|no such table|schema (version )?check failed|could not connect", re.I)
+
+
+def fresh_project_race(viol, stats, samples):
+    """Commands started together on a fresh directory: the one that creates .redo/db.sqlite3 is paused between
+    creating the file and creating its tables (delay hook init.connect), the others arrive meanwhile."""
+    for others in ([["redo-ifchange", "b"]], [["redo", "b"], ["redo-targets"]], [["redo-ood"], ["redo-ifchange", "b"], ["redo-sources"]]):
+        pr = Project()
+        try:
+            pr.write("a.do", "echo a\n")
+            pr.write("b.do", "echo b\n")
+            cmds = [["redo", "a"]] + others
+            rs = sched.run_cmds(pr, cmds, env={"REDO_VERIF_DELAY": "init.connect=250"}, timeout=60, stagger=0.08)
+            stats["rounds"] += 1
+            stats["commands"] += len(cmds)
+            scen = dict(commands=cmds, fresh_project=True, delay="init.connect=250 (the creator of the database file pauses before creating the tables)")
+            for c, r in zip(cmds, rs):
+                if r.rc != 0:
+                    p = write_replay("C16", "fresh-race", dict(kind="impl-monitor", scenario=scen, command=c, rc=r.rc, stderr=r.err[-1500:]))
+                    viol.append(Violation("C16", p, "on a fresh project, `%s` started beside `%s` exited %s although every script succeeds: %s" %
+                                          (" ".join(c), " ".join(cmds[0]), r.rc, r.err.strip().splitlines()[-1][:160] if r.err.strip() else "")))
+                    return
+            if pr.read("a") != b"a\n" or pr.read("b") not in (b"b\n", None if not any("b" in c for c in others) else b"b\n"):
+                p = write_replay("C16", "fresh-race-state", dict(kind="impl-monitor", scenario=scen, a=repr(pr.read("a")), b=repr(pr.read("b"))))
+                viol.append(Violation("C16", p, "on a fresh project, concurrent first commands lost a build result"))
+                return
+            db = sqlite3.connect("file:%s?mode=ro" % pr.path(".redo/db.sqlite3"), uri=True, timeout=30)
+            names = set(x[0] for x in db.execute("select name from Files").fetchall())
+            db.close()
+            want = {"a", "a.do"} | ({"b", "b.do"} if any(c[-1] == "b" for c in others) else set())
+            if not want <= names:
+                p = write_replay("C16", "fresh-race-rows", dict(kind="impl-monitor", scenario=scen, rows=sorted(names), missing=sorted(want - names)))
+                viol.append(Violation("C16", p, "on a fresh project, records written by a concurrent first command are missing: %s" % sorted(want - names)))
+                return
+            if len(samples) < 1:
+                samples.append(dict(scenario=scen, rcs=[r.rc for r in rs]))
+        finally:
+            pr.destroy()
 
 
 def txn_events(trace):
@@ -49,7 +86,8 @@ def run(ctx):
     known_hit = []
     samples = []
     kf = {k["id"]: k for k in known_findings("C16") if k.get("status") == "known"}
-    for rnd in range(rounds):
+    fresh_project_race(viol, stats, samples)
+    for rnd in range(rounds if not viol else 0):
         pr = Project()
         try:
             g = sched.gen_graph(rng, rng.randint(4, 8))
@@ -106,6 +144,11 @@ def run(ctx):
                 if r.timed_out:
                     p = write_replay("C16", "hang-%d" % rnd, dict(kind="impl-monitor", scenario=scen, command=c, stderr=r.err[-1500:]))
                     viol.append(Violation("C16", p, "command %s did not finish within 90 s beside %d others" % (" ".join(c), k - 1)))
+                    break
+                if r.rc != 0 and not BUSY.search(r.err) and r.rc != 101:
+                    # every script of these projects succeeds: no failure is attributable to a build script
+                    p = write_replay("C16", "spurious-%d" % rnd, dict(kind="impl-monitor", scenario=scen, command=c, rc=r.rc, stderr=r.err[-1500:]))
+                    viol.append(Violation("C16", p, "command %s exited %s beside %d others although every script succeeds: %s" % (" ".join(c), r.rc, k - 1, r.err.strip().splitlines()[-1][:160] if r.err.strip() else "")))
                     break
                 if BUSY.search(r.err) or (r.rc == 101):
                     stats["busy_errors"] += 1
